@@ -173,6 +173,10 @@ def _allowed(ip, frame, spec, node=None):
         cur = holder.attrs.get(attr) if isinstance(holder, Obj) else None
         if isinstance(cur, (PyList, PyDict, PySet, SymSeq, SymMap)):
             allowed.add((id(cur), '*'))
+            if isinstance(cur, PyDict):
+                for x in cur.vals:
+                    if isinstance(x, (PyList, PyDict, PySet, SymSeq, SymMap)):
+                        allowed.add((id(x), '*'))
     return allowed
 
 
